@@ -329,7 +329,7 @@ def gen_case(seed, tier):
         kinds += ['fs_write', 'fs_write', 'fs_remove', 'fs_ioerror',
                   'restart']
     # swarm: a random subset of the non-render kinds
-    allowed = {k for k in set(kinds) if r.random() < 0.7} | {'render'}
+    allowed = {k for k in sorted(set(kinds)) if r.random() < 0.7} | {'render'}
     kinds = [k for k in kinds if k in allowed]
     for _ in range(n):
         k = r.choice(kinds)
